@@ -18,7 +18,7 @@ RULE = ("2-4 jobs drawn from decoder / encoder calls (with attribute / strict fl
         "contain symbols never seen before in the process (fresh isotopes, so the first-sight write to the symbol cache "
         "happens inside the interleaving) and include aromatic inputs (kekulization, matching); a generated schedule of up to "
         "200 (thread, opcode-count) segments executed by a deterministic opcode-level scheduler (sys.settrace with "
-        "f_trace_opcodes inside selfies frames); plus a free-running stress sub-tier (8-16 threads, switch interval 1e-6 s). "
+        "f_trace_opcodes inside selfies frames); plus a free-running stress sub-tier (8-16 threads, switch interval 1e-6 s) and a cold-start sub-tier (fresh interpreters whose first translation calls are made by 4-12 threads at once, so lazily built tables are filled inside the race). "
         "Oracle: every job's result (value or exception class) equals the result of the same call run alone before and after "
         "the concurrent phase (fresh-isotope jobs: alone on an equally fresh isotope, renamed). non-trivial = >= 5 switches "
         "while >= 2 jobs are mid-call inside selfies frames; distinct = distinct (jobs, schedule)")
@@ -68,6 +68,8 @@ def evaluate(case):
     jobs = case["jobs"]
     if case.get("kind") == "stress":
         return _stress(case)
+    if case.get("kind") == "cold":
+        return _cold(case)
     # materialise fresh isotopes: {u} in a job's text
     isoA = next(_fresh)
     isoB = next(_fresh)
@@ -153,6 +155,31 @@ def _stress(case):
     return Result(fail, True, ("stress", "threads=%d" % nthreads), sample=dict(jobs=jobs[:3], threads=nthreads, calls=calls))
 
 
+def _cold(case):
+    """first calls of a fresh interpreter made concurrently (lazily built tables / memo caches are filled inside the race)"""
+    import json
+    import os
+    import subprocess
+    from vf.core import HERE, REPO, HarnessError
+    env = dict(os.environ, PYTHONPATH="%s:%s" % (REPO, HERE), PYTHONHASHSEED="0")
+    q = dict(jobs=case["jobs"], threads=case["threads"], rounds=case["rounds"])
+    p = subprocess.run([sys.executable, "-m", "vf.coldstress"], input=json.dumps(q).encode(), stdout=subprocess.PIPE,
+                       stderr=subprocess.PIPE, env=env, timeout=600)
+    if p.returncode != 0:
+        raise HarnessError("cold-start subprocess failed: " + p.stderr.decode()[-600:])
+    out = json.loads(p.stdout.decode())
+    if not out["file"].startswith(REPO):
+        raise HarnessError("cold-start subprocess imported selfies from " + out["file"])
+    fail = None
+    if out["alive"]:
+        fail = Fail("cold:thread_did_not_finish", jobs=case["jobs"][:3])
+    elif out["mismatches"]:
+        m = out["mismatches"][0]
+        fail = Fail("cold:concurrent_differs_from_serial:" + m["job"]["kind"], **m)
+    return Result(fail, True, ("cold_start", "threads=%d" % case["threads"]), extra=out["calls"],
+                  sample=dict(jobs=case["jobs"][:3], threads=case["threads"], calls=out["calls"]))
+
+
 DEC_POOL = ["[C][=C][Branch1][C][O][C][Ring1][Ring2][{u}OH1]", "[N][{u}OH1][C]", "[{u}C][C][C][Ring1][Ring1][=Ring1][Ring1]",
             "[C][C@@H1][Branch1][C][F][Cl]", "[S][=Branch1][C][=O][=Branch1][C][=O][{u}O]", "[C][C][Xx]", "[{u}N+1][=C][Fe+3][#C]",
             "[C][Branch1][=Branch1][{u}C][Branch1][C][F][Cl][Br].[Na+1]", "[C][/C][=C][\\{u}F]"]
@@ -193,6 +220,30 @@ def gen_case(ch):
     return dict(jobs=jobs, schedule=segs)
 
 
+COLD_DEC = ["[C][=C][Branch1][C][O][C][Ring1][Ring2]", "[C][C][C][C][=Ring1][Ring2]", "[C][Branch2][Ring1][C]" + "[C]" * 18 + "[F]",
+            "[C]" * 20 + "[Ring2][Ring1][C]", "[C][C][C][C][-/Ring1][Ring2]", "[S][#Branch1][C][N][=Branch3][C][C][C][O]",
+            "[C][C][C][C][C][\\/Ring1][Branch1]", "[C]" * 120 + "[Ring3][C][Ring1][Ring2]", "[N][=Branch2][C][Ring1][O][F]"]
+
+
+def gen_cold(ch):
+    jobs = []
+    for _ in range(ch.int(3, 6)):
+        w = ch.int(0, 4)
+        if w == 0:
+            jobs.append(dict(kind="dec", text=ch.pick(COLD_DEC), flags={}))
+        elif w == 1:
+            jobs.append(dict(kind="dec", text=ch.pick(DEC_POOL).replace("{u}", "13"), flags=dict(attribute=ch.bool(30))))
+        elif w == 2:
+            n = ch.weighted([(3, ch.int(3, 40)), (2, ch.int(40, 300))])
+            jobs.append(dict(kind="enc", text="C1" + "C" * n + "1", flags={}))
+        elif w == 3:
+            n = ch.weighted([(3, ch.int(1, 40)), (2, ch.int(40, 300))])
+            jobs.append(dict(kind="enc", text="S(" + "C" * n + ")(F)Cl", flags={}))
+        else:
+            jobs.append(dict(kind="enc", text=ch.pick(ENC_POOL).replace("{u}", "13"), flags=dict(strict=ch.bool(70))))
+    return dict(kind="cold", jobs=jobs, threads=ch.pick([4, 8, 8]), rounds=ch.pick([1, 1, 2]))
+
+
 def gen_stress(ch):
     return dict(kind="stress", jobs=gen_jobs(ch) + gen_jobs(ch), threads=ch.pick([8, 16]), calls=ch.pick([100, 300]))
 
@@ -200,3 +251,4 @@ def gen_stress(ch):
 def shard(ctx):
     ctx.drive("schedules", gen_case, ctx.n(400, 6000), max_bytes=700)
     ctx.drive("stress", gen_stress, ctx.n(2, 20), max_bytes=64)
+    ctx.drive("cold", gen_cold, ctx.n(8, 150), max_bytes=128)
